@@ -1,0 +1,44 @@
+//go:build verif
+
+package db
+
+import (
+	lru "github.com/hashicorp/golang-lru"
+	"github.com/syndtr/goleveldb/leveldb"
+	"github.com/syndtr/goleveldb/leveldb/opt"
+	"github.com/syndtr/goleveldb/leveldb/storage"
+
+	"github.com/zenon-network/go-zenon/common"
+)
+
+// NewLevelDBManagerFromStorage is the same as NewLevelDBManager but lets the caller supply the goleveldb storage.
+func NewLevelDBManagerFromStorage(stor storage.Storage, location string) Manager {
+	opts := &opt.Options{OpenFilesCacheCapacity: getOpenFilesCacheCapacity()}
+	ldb, err := leveldb.Open(stor, opts)
+	common.DealWithErr(err)
+	l1Cache, err := lru.New(l1CacheSize)
+	common.DealWithErr(err)
+	l2Cache, err := lru.New(l2CacheSize)
+	common.DealWithErr(err)
+	return &ldbManager{
+		location: location,
+		l1Cache:  l1Cache,
+		l2Cache:  l2Cache,
+		ldb:      ldb,
+	}
+}
+
+// VerifRollbackPatch returns the undo patch stored for the given height (nil if there is none or
+// if m is not a leveldb manager). The Manager interface exposes the redo patch (GetPatch) only.
+func VerifRollbackPatch(m Manager, height uint64) Patch {
+	lm, ok := m.(*ldbManager)
+	if !ok {
+		return nil
+	}
+	lm.changes.Lock()
+	defer lm.changes.Unlock()
+	if lm.stopped {
+		return nil
+	}
+	return lm.getRollback(height)
+}
